@@ -7,8 +7,8 @@ signatures (harness/authkit) and resolved by the real edns+cache+resolver chain.
 import vf
 
 
-def cases_from(ctx, num):
-    behs = ctx.tlc_behaviours("Dnssec", "MC_Dnssec.tla", "Sim_Dnssec.cfg", num=num, depth=8)
+def cases_from(ctx, num, cfg="Sim_Dnssec.cfg"):
+    behs = ctx.tlc_behaviours("Dnssec", "MC_Dnssec.tla", cfg, num=num, depth=8)
     out, seen = [], set()
     for b in behs:
         st0, stN = b[0][1], b[-1][1]
@@ -30,9 +30,11 @@ def run(ctx, replay):
                        "the caches the first filled) and judged against the zone's ground truth; distinct = distinct cases")
     ctx.assumptions += ["cryptographic primitives themselves are not re-verified (C14 is out of scope)",
                         "single-server zones: an effective tampering leaves no authentic path, so SERVFAIL is the only legal outcome",
-                        "pairs of tamperings are not explored yet"]
+                        "pairs = one tampering at each of two different positions of the path"]
     ctx.tlc("Dnssec", "MC_Dnssec.tla", "MC_Dnssec.cfg", workers=4, timeout=900, heap="6g")
-    cases = cases_from(ctx, 260 if not thorough else 4000)
+    ctx.tlc("Dnssec", "MC_Dnssec.tla", "MC_DnssecPairs.cfg", workers=4 if not thorough else 8, timeout=1500, heap="8g")
+    cases = cases_from(ctx, 200 if not thorough else 3000)
+    cases += cases_from(ctx, 120 if not thorough else 3000, "Sim_DnssecPairs.cfg")
     for c in cases:
         ctx._distinct.add("c01:%r" % (c,))
     # split into chunks so one driver process does not accumulate hundreds of resolvers
